@@ -168,6 +168,13 @@ func genC11(driver string, col *ev.Collector) func(*rapid.T) c11Case {
 			// at a time and one advisory set is reached by more than one route
 			c.Scenario = universe.GenChainScenario(t, universe.ChainConfig{
 				Steps: []string{universe.LevelMajor, universe.LevelMinor, universe.LevelPatch}, Levels: true})
+		} else if driver == drvMavenOverride && pct(t, "override_chain?") < 20 {
+			// override chains: the override that fixes one advisory pulls in (or raises) another
+			// package at a version a second advisory affects; that package is not affected in the
+			// original graph, has a level of its own in most cases (mostly below major) and its fix
+			// is a patch, minor or major step away or missing. The strategy reaches it only in the
+			// second round of the attempt that patches the introduced advisory as well.
+			c.Scenario = universe.GenOverrideChainScenario(t, universe.OverrideChainConfig{Levels: true})
 		} else {
 			c.Scenario = universe.GenScenario(t, cfg)
 		}
@@ -345,8 +352,10 @@ func propC11Fix(c c11Case) (ev.Outcome, error) {
 		cache[k] = resolved{g, err}
 		return g, err
 	}
+	var g0 *resolve.Graph // the graph of the unpatched manifest (Maven legs, class counters only)
 	if c.Universe.System == universe.Maven {
-		if g0, err := resolveCached(c.Manifest); err == nil {
+		if g, err := resolveCached(c.Manifest); err == nil {
+			g0 = g
 			c11FlavourClasses(c, w.Index, g0, cls)
 		}
 	}
@@ -378,6 +387,9 @@ func propC11Fix(c c11Case) (ev.Outcome, error) {
 		groups := groupsOf(ups)
 		if len(groups) > 1 {
 			cls["multi_package_patch"] = true
+		}
+		if c.Driver == drvMavenOverride && errAfter == nil && g0 != nil {
+			c11IntroducedClasses(c, w.Index, it.p, groups, g0, gAfter, cls)
 		}
 		for _, g := range groups {
 			level := c.Levels.Level(g.name)
@@ -424,14 +436,15 @@ func propC11Fix(c c11Case) (ev.Outcome, error) {
 					}
 				}
 			}
+			knownMoved := false
 			if underMovedParent && c.Driver == drvMavenOverride {
 				// class c11.override_pin_below_moved_parent: the same patch also changes a package
-				// that (transitively) depends on this one
+				// that (transitively) depends on this one. The pin may have been decided against the
+				// graph of an earlier round, in which that dependent was at another version: when the
+				// bases below do not justify the change, the bases under the earlier-round states
+				// are consulted before the class is honoured (explainedByEarlierRound).
 				cls["change_under_moved_parent"] = true
-				if col := ev.Get("C11"); !c.Strict && col.IsKnown(clsPinBelowMovedParent) {
-					col.Excluded(clsPinBelowMovedParent)
-					continue
-				}
+				knownMoved = !c.Strict && ev.Get("C11").IsKnown(clsPinBelowMovedParent)
 			}
 			if len(others) > 4 {
 				cls["dontcare_patch_too_large"] = true
@@ -514,6 +527,19 @@ func propC11Fix(c c11Case) (ev.Outcome, error) {
 				}
 				continue
 			}
+			if knownMoved {
+				explained, complete := explainedByEarlierRound(c, w.Index, ups, g, others, desc, va, level, direct, resolveCached)
+				if explained || !complete {
+					if explained {
+						cls["under_moved_parent_explained_by_earlier_round"] = true
+					} else {
+						cls["under_moved_parent_too_many_earlier_states"] = true
+					}
+					ev.Get("C11").Excluded(clsPinBelowMovedParent)
+					continue
+				}
+				cls["under_moved_parent_unexplained"] = true
+			}
 			b0 := defined[0] // the largest defined subset, normally the patch minus this change
 			if cmpStr(as[0], b0.version) <= 0 {
 				return out(true), fmt.Errorf("%s patch %s does not move %s strictly upward: it resolves to %s with the change and to %s without it (bases under every subset of the patch's other changes: %v)", where, describePatch(it.p), g.name, as[0], b0.version, baseList(defined))
@@ -534,6 +560,160 @@ func propC11Fix(c c11Case) (ev.Outcome, error) {
 		}
 	}
 	return out(nontrivial), nil
+}
+
+// c11IntroducedClasses labels an override patch by what it introduces and by what it reaches
+// only in a later round of its attempt:
+//
+//	introduced_in_other_package: an advisory the patch introduces affects, in the patched graph,
+//	  a package the patch does not change (..._new_to_graph: the package is not in the original
+//	  graph; ..._unaffected_before: it is, at a version the advisory does not affect)
+//	introduced_other_package_below_major (and ..._level_<level>): that package's level is not major
+//	introduced_fix_beyond_level: the package has a higher version the advisory does not affect,
+//	  but none within its level (level none included); introduced_fix_within_level,
+//	  introduced_other_package_no_fix otherwise
+//	override_of_package_clean_at_start (..._under_restricted_level): the patch changes a package
+//	  that no advisory affects in the original graph (or that is not in it): the change was
+//	  decided in a later round, after an earlier override made the package vulnerable
+func c11IntroducedClasses(c c11Case, ix *universe.Index, p result.Patch, groups []changeGroup, g0, gAfter *resolve.Graph, cls map[string]bool) {
+	eco := universe.Ecosystem(c.Universe.System)
+	changed := map[string]bool{}
+	for _, g := range groups {
+		changed[g.name] = true
+		clean := true
+		for _, ver := range universe.ResolvedVersions(g0, g.name, "", false) {
+			for _, o := range c.Vulns {
+				clean = clean && !universe.Affected(o, eco, g.name, ver)
+			}
+		}
+		if clean {
+			cls["override_of_package_clean_at_start"] = true
+			if c.Levels.Level(g.name) != universe.LevelMajor {
+				cls["override_of_package_clean_at_start_under_restricted_level"] = true
+			}
+		}
+	}
+	for _, iv := range p.Introduced {
+		for _, o := range c.Vulns {
+			if o.ID != iv.ID {
+				continue
+			}
+			for _, af := range o.Affected {
+				q := af.Package.Name
+				if af.Package.Ecosystem != eco {
+					continue
+				}
+				for _, ver := range universe.ResolvedVersions(gAfter, q, "", false) {
+					vb, ok := universe.ParseVer(ver)
+					if !ok || !universe.Affected(o, eco, q, ver) {
+						continue
+					}
+					if changed[q] {
+						cls["introduced_in_changed_package"] = true
+						continue
+					}
+					cls["introduced_in_other_package"] = true
+					if len(universe.ResolvedVersions(g0, q, "", false)) == 0 {
+						cls["introduced_in_other_package_new_to_graph"] = true
+					} else {
+						cls["introduced_in_other_package_unaffected_before"] = true
+					}
+					level := c.Levels.Level(q)
+					if level != universe.LevelMajor {
+						cls["introduced_other_package_below_major"] = true
+						cls["introduced_other_package_level_"+level] = true
+					}
+					anyFix, within := false, false
+					if pk, ok := ix.Package(q); ok {
+						for _, v := range pk.Versions {
+							if v.V.Compare(vb) <= 0 || universe.Affected(o, eco, q, v.Version) {
+								continue
+							}
+							anyFix = true
+							within = within || universe.LevelAllows(level, universe.Classify(vb, v.V))
+						}
+					}
+					switch {
+					case !anyFix:
+						cls["introduced_other_package_no_fix"] = true
+					case !within:
+						cls["introduced_fix_beyond_level"] = true
+						cls["introduced_fix_beyond_level_"+level] = true
+					default:
+						cls["introduced_fix_within_level"] = true
+					}
+				}
+			}
+		}
+	}
+}
+
+// maxEarlierStates bounds the earlier-round states explainedByEarlierRound resolves.
+const maxEarlierStates = 256
+
+// explainedByEarlierRound decides whether a change of package g.name that is not a
+// level-respecting strict upgrade relative to any subset of the patch's other changes is one
+// relative to a state an earlier round of override.patchVulns can have seen. The overrides of
+// an attempt accumulate and every one of them ends up in the patch, so the graph a round
+// decides against is that of the manifest plus, for each other package of the patch, either
+// nothing yet or an override at some version of that package; only packages that
+// (transitively) depend on g.name can influence the version g.name resolves to, so for them
+// every published version is tried, for the rest only "not yet" and the final version.
+// complete is false when there are more such states than maxEarlierStates.
+func explainedByEarlierRound(c c11Case, ix *universe.Index, ups []universe.Update, g changeGroup, others []changeGroup,
+	desc map[string]map[string]bool, va universe.Ver, level string, direct bool,
+	resolveFn func(universe.Manifest) (*resolve.Graph, error)) (explained, complete bool) {
+	opts := make([][]string, len(others)) // "" = no override yet
+	total := 1
+	for i, o := range others {
+		final := ups[o.idx[0]].To
+		opts[i] = []string{"", final}
+		if desc[o.name][g.name] {
+			for _, v := range ix.VersionStrings(o.name) {
+				if v != final {
+					opts[i] = append(opts[i], v)
+				}
+			}
+		}
+		total *= len(opts[i])
+		if total > maxEarlierStates {
+			return false, false
+		}
+	}
+	pick := make([]int, len(others))
+	for {
+		var sel []universe.Update
+		for i, o := range others {
+			if v := opts[i][pick[i]]; v != "" {
+				for _, j := range o.idx {
+					u := ups[j]
+					u.To = v
+					sel = append(sel, u)
+				}
+			}
+		}
+		if before, err := c.Manifest.Apply(sel); err == nil {
+			if gb, err := resolveFn(before); err == nil {
+				if bs := universe.ResolvedVersions(gb, g.name, g.alias, direct); len(bs) == 1 {
+					if vb, ok := universe.ParseVer(bs[0]); ok && va.Compare(vb) > 0 && universe.LevelAllows(level, universe.Classify(vb, va)) {
+						return true, true
+					}
+				}
+			}
+		}
+		k := 0
+		for k < len(pick) {
+			pick[k]++
+			if pick[k] < len(opts[k]) {
+				break
+			}
+			pick[k] = 0
+			k++
+		}
+		if k == len(pick) {
+			return false, true
+		}
+	}
 }
 
 // c11FlavourClasses labels a Maven case by the qualifier flavours of the versions that matter:
